@@ -13,7 +13,7 @@ from ..util import stream, Foreign, h64
 
 PROP = "C08"
 LEVEL = "exploration"
-N = {"quick": 6000, "thorough": 150000}
+N = {"quick": 100000, "thorough": 2000000}
 RULE = ("seeded tiny positive-duration instance (<= 8 operations, quick; <= 10 thorough; flexible or not, recirculation, "
         "irregular); OPT by exact memoised search over ALL dispatch orders and machine choices; then up to 8 seeded "
         "rollouts of the real Dispatcher with the real filter_dominated_operations, choosing only among "
